@@ -257,6 +257,8 @@ func ruleLockBalanced(only func(lm *LockModel, cls int) bool) func(*Ctx) {
 				}
 				key := fnName(fn) + ":" + name
 				switch {
+				case fl.scoped && fl.scopedRel.has(i):
+					c.S.Trivial("lock-balanced", key, c.Pos(fn.Pos()), "scoped acquirer: every path returns the function that releases what the path acquired; its callers are judged")
 				case fl.adds.has(i):
 					c.S.Trivial("lock-balanced", key, c.Pos(fn.Pos()), "acquire wrapper: returns holding the lock on every path")
 				case fl.mayExit.has(i) && lm.leakInherited(c.Prog, fn, i):
@@ -286,7 +288,7 @@ func (lm *LockModel) leakInherited(p *Prog, fn *ssa.Function, i int) bool {
 			continue
 		}
 		for _, g := range p.Callees(c) {
-			if fl := lm.fl[g]; fl != nil && g != fn && fl.mayExit.has(i) && !fl.adds.has(i) {
+			if fl := lm.fl[g]; fl != nil && g != fn && fl.mayExit.has(i) && !fl.adds.has(i) && !(fl.scoped && fl.scopedRel.has(i)) {
 				return true
 			}
 		}
